@@ -121,3 +121,8 @@ impl<T: Clone + PartialEq> Probe<T> {
         }
     }
 }
+
+#[cfg(any(kani, caio_foca_verif))]
+#[allow(missing_docs, unreachable_pub, dead_code, unused, private_interfaces, clippy::all)]
+#[path = "/verif/kani/incrate/probe_hook.rs"]
+pub(crate) mod verif_hook;
